@@ -815,36 +815,77 @@ pub fn pk_full_cases(ctx: &mut Ctx, s: &FamSubject, idx: usize, every_format: bo
             &format!("pkfull via=read fmt={fname} nf={nfixed} np={nperm} deg={deg} bf={bf} t={t2} {}", hex(&bytes)),
             &ans,
         );
-        // a key file with one permutation polynomial too few / too many (the count of the list
-        // is not tied to the circuit by `read_polynomial_vec`): `compute_polys_and_cosets`
-        // indexes `permutations[i]` for every permutation column
-        if nperm >= 1 && every_format {
+        // key files whose polynomial lists do not fit the circuit: one fixed / permutation
+        // polynomial too few or too many, or a polynomial one value too short / too long
+        // (`read_polynomial_vec` takes every count and length from the file; since /repo commit
+        // c2433f0 `ProvingKey::read` checks them — before, the short list panicked with index
+        // out of bounds, a wrong length on an assertion, and surplus / missing columns were
+        // accepted: regression cases, the answer is `err shape` in every format)
+        if nperm >= 1 && nfixed >= 1 && every_format {
             let vklen = s.vk.to_bytes(*fmt).len();
-            let Some((_, used)) = ser::slice_polyvec(&bytes[vklen..]) else { continue };
-            let ps = vklen + used;
-            let polylen = 4 + 32 * (1usize << s.k);
-            let mut short = bytes[..bytes.len() - polylen].to_vec();
-            short[ps..ps + 4].copy_from_slice(&((nperm - 1) as u32).to_be_bytes());
-            let mut long = bytes.clone();
-            long.extend_from_slice(&bytes[bytes.len() - polylen..]);
-            long[ps..ps + 4].copy_from_slice(&((nperm + 1) as u32).to_be_bytes());
-            for (vname, vb) in [("perm-short", short), ("perm-long", long)] {
+            let Some((fixed, used)) = ser::slice_polyvec(&bytes[vklen..]) else { continue };
+            let Some((perms, _)) = ser::slice_polyvec(&bytes[vklen + used..]) else { continue };
+            let enc = |f: &Vec<Vec<F>>, p: &Vec<Vec<F>>| -> Vec<u8> {
+                let mut out = bytes[..vklen].to_vec();
+                for list in [f, p] {
+                    out.extend_from_slice(&(list.len() as u32).to_be_bytes());
+                    for poly in list {
+                        out.extend_from_slice(&(poly.len() as u32).to_be_bytes());
+                        for v in poly {
+                            out.extend_from_slice(&ser::f_raw(v));
+                        }
+                    }
+                }
+                out
+            };
+            if enc(&fixed, &perms) != bytes {
+                ctx.oracle_fail("pk-bytes-reencode", "re-encoding the sliced polynomial lists does not give back the key image", s.desc());
+            }
+            let drop_last = |l: &Vec<Vec<F>>| l[..l.len() - 1].to_vec();
+            let dup_last = |l: &Vec<Vec<F>>| {
+                let mut v = l.clone();
+                v.push(l[l.len() - 1].clone());
+                v
+            };
+            let relen = |l: &Vec<Vec<F>>, longer: bool| {
+                let mut v = l.clone();
+                let last = v.last_mut().unwrap();
+                if longer {
+                    last.push(F::ONE);
+                } else {
+                    last.pop();
+                }
+                v
+            };
+            let variants: Vec<(&str, Vec<u8>)> = vec![
+                ("perm-short", enc(&fixed, &drop_last(&perms))),
+                ("perm-long", enc(&fixed, &dup_last(&perms))),
+                ("fixed-short", enc(&drop_last(&fixed), &perms)),
+                ("fixed-long", enc(&dup_last(&fixed), &perms)),
+                ("perm-poly-short", enc(&fixed, &relen(&perms, false))),
+                ("perm-poly-long", enc(&fixed, &relen(&perms, true))),
+                ("fixed-poly-short", enc(&relen(&fixed, false), &perms)),
+                ("fixed-poly-long", enc(&relen(&fixed, true), &perms)),
+            ];
+            for (vname, vb) in variants {
                 let ans = match read_pk(&vb, *fmt, &s.fp) {
                     Ok(Ok(p2)) => {
-                        ctx.count(&format!("pkfull:{vname}:accepted"));
+                        ctx.oracle_fail(
+                            &format!("pk-read-accepts:{vname}:{fname}"),
+                            "ProvingKey::read accepted a key file whose polynomial lists do not fit the circuit (number of polynomials / number of values)",
+                            json!({"subject": s.desc(), "variant": vname, "fmt": fname}),
+                        );
                         derived_line(&p2)
                     }
                     Ok(Err(c)) => format!("err {c}"),
                     Err(pn) => {
-                        ctx.count(&format!("note:pk-read-panics-on-{vname}:{fname}"));
-                        if *fname != "U" {
-                            // checked formats: a panic on bytes (known finding, findings/C17.json)
-                            ctx.oracle_fail(
-                                &format!("pk-read-panic:{vname}:{fname}"),
-                                "ProvingKey::read panicked on a key file whose permutation list does not have one polynomial per permutation column",
-                                json!({"subject": s.desc(), "variant": vname, "fmt": fname, "panic": pn}),
-                            );
-                        }
+                        // (also for the unchecked format: the count and the lengths are
+                        // structure, not element encodings)
+                        ctx.oracle_fail(
+                            &format!("pk-read-panic:{vname}:{fname}"),
+                            "ProvingKey::read panicked on a key file whose polynomial lists do not fit the circuit (number of polynomials / number of values)",
+                            json!({"subject": s.desc(), "variant": vname, "fmt": fname, "panic": pn}),
+                        );
                         "panic".into()
                     }
                 };
